@@ -64,7 +64,11 @@ def gen_case(rng, i):
         # twin parameter groups: identical hyperparameters and shapes (the compiled per-group step is shared by all groups)
         steps = [{"present": [[True] * len(shapes), [True] * len(shapes)], "gseed": rng.randrange(1 << 30), "edits": None} for s in range(nsteps)]
         steps[3]["present"][1][0] = False
-        return {"groups": [{"cfg": c, "shapes": shapes}, {"overrides": {}, "shapes": list(shapes)}], "init_seed": rng.randrange(1 << 30), "steps": steps}
+        # every other twin case: the second group grafts from a DIFFERENT method (state shared between groups by mistake shows here)
+        ov = {}
+        if (i // 18) % 2 == 1 and c["graft"] in ("adam", "rmsprop", "adagrad"):
+            ov = {"graft": {"adam": "rmsprop", "rmsprop": "adam", "adagrad": "adam"}[c["graft"]], "gbeta2": c["gbeta2"], "geps": c["geps"]}
+        return {"groups": [{"cfg": c, "shapes": shapes}, {"overrides": ov, "shapes": list(shapes)}], "init_seed": rng.randrange(1 << 30), "steps": steps}
     flip = rng.randrange(len(shapes))
     steps = []
     for s in range(nsteps):
@@ -193,7 +197,8 @@ def run(ck: Check) -> None:
             "shape mode static / dynamic / automatic": [sum(1 for j in jobs if j[1][1] is False), sum(1 for j in jobs if j[1][1] is True), sum(1 for j in jobs if j[1][1] is None)],
             "gradient presence change that changes the number of active blocks (forces recompilation)": sum(1 for j in jobs if len(j[0]["groups"]) == 1 and any(not all(s["present"][0]) for s in j[0]["steps"]) and not (len(j[0]["groups"][0]["shapes"]) == 2 and j[0]["groups"][0]["shapes"][0] == j[0]["groups"][0]["shapes"][1] and any(s["present"][0] in ([True, False], [False, True]) for s in j[0]["steps"]))),
             "alternating gradients on two equal-shaped parameters (same count, no recompilation)": sum(1 for j in jobs if len(j[0]["groups"]) == 1 and len(j[0]["groups"][0]["shapes"]) == 2 and any(s["present"][0] == [True, False] for s in j[0]["steps"]) and any(s["present"][0] == [False, True] for s in j[0]["steps"])),
-            "twin parameter groups (identical hyperparameters and shapes)": sum(1 for j in jobs if len(j[0]["groups"]) == 2),
+            "twin parameter groups (identical hyperparameters and shapes)": sum(1 for j in jobs if len(j[0]["groups"]) == 2 and not j[0]["groups"][1]["overrides"]),
+            "two groups grafting from different methods": sum(1 for j in jobs if len(j[0]["groups"]) == 2 and j[0]["groups"][1]["overrides"]),
             "lr edited between steps": sum(1 for j in jobs if any(s.get("edits") for s in j[0]["steps"])),
             "Shampoo / SOAP": [sum(1 for j in jobs if j[0]["groups"][0]["cfg"]["kind"] == "shampoo"), sum(1 for j in jobs if j[0]["groups"][0]["cfg"]["kind"] == "soap")],
             "grafting none/sgd/adagrad/rmsprop/adam": [sum(1 for j in jobs if j[0]["groups"][0]["cfg"]["graft"] == g) for g in (None, "sgd", "adagrad", "rmsprop", "adam")],
@@ -202,7 +207,7 @@ def run(ck: Check) -> None:
             "filtering (beta1 > 0)": sum(1 for j in jobs if j[0]["groups"][0]["cfg"]["betas"][0] > 0),
             "parameters split into several blocks": sum(1 for r in results if "error" not in r and r.get("max_blocks", 0) >= 2),
         },
-        "not_exercised": ["inductor backend (outside the property's wording; no GPU)", "groups mixing different grafting types in one optimizer under compile are only reached through the twin-group variant with identical configs"],
+        "not_exercised": ["inductor backend (outside the property's wording; no GPU)"],
     })
     ck.assumptions += ["backends eager and aot_eager on CPU; float64 parameters"]
 
